@@ -160,7 +160,7 @@ func (f *Frame) callFunc(c *cursor, site ssa.Instruction, callee *ssa.Function, 
 			if i == 0 && callee.Signature.Recv() != nil {
 				continue
 			}
-			if i < len(args) && f.implicitNonNil(callee, p.Type()) {
+			if i < len(args) && f.implicitNonNil(callee, p.Type()) && !nilOK(P.specFor(callee), p.Name()) {
 				a := f.val(args[i])
 				if a.Sort == SInt {
 					f.guard(c, "nil", site, not(eq(a, intLit(0))))
@@ -174,6 +174,13 @@ func (f *Frame) callFunc(c *cursor, site ssa.Instruction, callee *ssa.Function, 
 	if spec == nil && callee.Pkg != nil && callee.Parent() == nil {
 		if _, ok := P.Specs.DefaultOpaque[callee.Pkg.Pkg.Name()]; ok {
 			spec = &FuncSpec{Key: key, Opaque: true}
+		}
+	}
+	if spec != nil && !spec.hasContract() && !spec.Inline && callee.Pkg != nil && callee.Parent() == nil {
+		if _, ok := P.Specs.DefaultOpaque[callee.Pkg.Pkg.Name()]; ok {
+			cp := *spec
+			cp.Opaque = true // a block without pre/postconditions in a "default opaque" package is still a contract
+			spec = &cp
 		}
 	}
 	if spec != nil && (spec.Inline || cl != nil) {
@@ -308,11 +315,10 @@ func (f *Frame) applyContract(c *cursor, site ssa.Instruction, callee *ssa.Funct
 		e.usedAssumes[key+": "+as.Text] = true
 	}
 	c.reach = e.define(f.pfx+"r.post", and(append([]Term{c.reach}, ens...)...))
-	if spec.MayPanic != "" {
-		top := e.Spec
-		if top == nil || top.MayPanic != spec.MayPanic {
+	if cls := e.P.mayPanicClass(callee); cls != "" {
+		if e.P.mayPanicClass(e.Top) != cls && !(e.Spec != nil && e.Spec.Recovers == cls) {
 			_, pos := f.obligName("call", site)
-			e.addOblig("panic", "callee "+shortKey(key)+" may panic ("+spec.MayPanic+")", f.props, pos, c.reach, tFalse)
+			e.addOblig("panic", "callee "+shortKey(key)+" may panic ("+cls+")", f.props, pos, c.reach, tFalse)
 		}
 	}
 	return res
@@ -783,4 +789,51 @@ func (f *Frame) dynEffects(call *ssa.CallCommon) (map[string]Sort, bool) {
 		}
 	}
 	return fams, false
+}
+
+// mayPanicClass: the class of panics a function may raise - declared
+// ("maypanic X") or inherited from the functions it calls (a panic
+// propagates up the stack), unless it recovers that class itself.
+func (P *Program) mayPanicClass(fn *ssa.Function) string {
+	if P.panicCls == nil {
+		P.panicCls = map[*ssa.Function]string{}
+		for _, f := range P.Funcs {
+			if sp := P.specFor(f); sp != nil && sp.MayPanic != "" {
+				P.panicCls[f] = sp.MayPanic
+			}
+		}
+		ra := P.regions()
+		for changed := true; changed; {
+			changed = false
+			for _, f := range P.Funcs {
+				if P.panicCls[f] != "" {
+					continue
+				}
+				if sp := P.specFor(f); sp != nil && sp.Recovers != "" {
+					continue
+				}
+				for _, c := range ra.calls[f] {
+					if cls := P.panicCls[c]; cls != "" {
+						// deferred closures of the same function do not propagate to it
+						P.panicCls[f] = cls
+						changed = true
+						break
+					}
+				}
+			}
+		}
+	}
+	return P.panicCls[fn]
+}
+
+func nilOK(sp *FuncSpec, name string) bool {
+	if sp == nil {
+		return false
+	}
+	for _, n := range sp.NilOK {
+		if n == name {
+			return true
+		}
+	}
+	return false
 }
